@@ -16,7 +16,7 @@ def esc(s: str) -> str:
 
 
 def as_built() -> str:
-    rows = ["| property | theorems in `Props/` (count; see `design/Cxx.md` for the list) | generated pins (translator tie) | quick cases | thorough cases | build notes |",
+    rows = ["| property | theorems in `Props/` (count; see `design/Cxx.md` for the list) | generated pins (translator tie) | quick: cases (wall, seed 0, measured on the build machine under load) | thorough: cases (wall) | build notes |",
             "|---|---|---|---|---|---|"]
     for hp in sorted((VERIF / "harness").glob("c[0-9][0-9].py")):
         pid = hp.stem.upper()
@@ -24,14 +24,9 @@ def as_built() -> str:
         src = (VERIF / "lean" / "Upnp" / "Props" / f"{pid}.lean").read_text()
         thms = re.findall(r"^theorem\s+(\S+)", src, re.M)
         main = ", ".join(f"`{t}`" for t in thms[:6]) + (" …" if len(thms) > 6 else "")
-        ev = {}
-        for tier in ("quick", "thorough"):
-            f = VERIF / "evidence" / f"{pid}.json"
-            if f.exists():
-                e = json.loads(f.read_text())
-                ev[e["tier"]] = e["coverage"]["evaluations"]
-        sizes = getattr(mod, "SIZES", {})
-        rows.append(f"| {pid} | {len(thms)}: {main} | {', '.join(getattr(mod, 'GEN_MODULES', [])) or '—'} | {sizes.get('quick', ev.get('quick', ''))} | {sizes.get('thorough', ev.get('thorough', ''))} | `design/{pid}.md` |")
+        sz = json.loads((VERIF / "design" / "sizes.json").read_text()).get(pid, {})
+        fmt = lambda t: f"{sz[t]['cases']} ({sz[t]['wall_s']:.0f} s)" if t in sz else ""  # noqa: E731
+        rows.append(f"| {pid} | {len(thms)}: {main} | {', '.join(getattr(mod, 'GEN_MODULES', [])) or '—'} | {fmt('quick')} | {fmt('thorough')} | `design/{pid}.md` |")
     return "\n".join(rows)
 
 
